@@ -1129,7 +1129,11 @@ func runC10(tier string, seed int64, outdir string, replay string) error {
 	}
 	for i := 0; i < nFault; i++ {
 		limit := []int{1 << 20, 300000, 4096, 1 << 16}[i%4]
-		hist, final, raw, err := c10Fault(tmproot, limit, 4<<20, 100000)
+		small := 100000 // the Stores that must succeed stay well below the limit
+		if small > limit/4 {
+			small = limit / 4
+		}
+		hist, final, raw, err := c10Fault(tmproot, limit, 4<<20, small)
 		if err != nil {
 			return err
 		}
@@ -1150,7 +1154,7 @@ func runC10(tier string, seed int64, outdir string, replay string) error {
 		if len(show) > 40 {
 			show = show[:40]
 		}
-		w.Add(emit.Case{Desc: map[string]any{"kind": "history", "class": "write-fault-history", "limit": limit}, In: map[string]any{"rlimit_fsize": limit, "big": 4 << 20, "small": 100000},
+		w.Add(emit.Case{Desc: map[string]any{"kind": "history", "class": "write-fault-history", "limit": limit}, In: map[string]any{"rlimit_fsize": limit, "big": 4 << 20, "small": small},
 			Obs: map[string]any{"failed_stores": failed, "loads": loads, "first_events": show}, Wire: e.String(), Nontrivial: failed >= 2 && loads >= 3, Key: fmt.Sprint("faulthist", i)})
 		f := &emit.Enc{}
 		f.Int(4).Len(7)
